@@ -27,25 +27,30 @@ macro "gen_arith" : tactic =>
 @[simp] theorem py_id (b : Bool) (x : Int) : Gen.min_delta___py b x = x := by
   unfold Gen.min_delta___py; split <;> rfl
 
+/-- `_diff` (equal values are zero apart — the guard for two infinities) is the difference on numbers -/
+@[simp] theorem diff_id (b : Bool) (x y : Int) : Gen.min_delta___diff b x y = x - y := by
+  unfold Gen.min_delta___diff
+  split <;> simp_all <;> omega
+
 /-! ## pruning.py -/
 
 /-- `min_delta` called at merge time (`value` given) is the model's compute-time test -/
 theorem min_delta_merge (val : Nat → Int) (d : Int) (t : Tree) (v sh ph : Int) (hp b : Bool) :
     Gen.min_delta d (t.vmax val) (t.vmin val) sh hp ph true v b = Crit.atMerge val (.minDelta d) t v := by
-  simp only [Gen.min_delta, Crit.atMerge, py_id]
+  simp only [Gen.min_delta, Crit.atMerge, py_id, diff_id]
   gen_arith
 
 /-- `min_delta` called without a value on a parentless structure -/
 theorem min_delta_orphan (val : Nat → Int) (d : Int) (t : Tree) (v ph : Int) (b : Bool) :
     Gen.min_delta d (t.vmax val) (t.vmin val) (t.height val) false ph false v b = Crit.orphan val (.minDelta d) t := by
-  simp only [Gen.min_delta, Crit.orphan, py_id]
+  simp only [Gen.min_delta, Crit.orphan, py_id, diff_id]
   gen_arith
 
 /-- `min_delta` called without a value on a structure that has a parent (what `prune` does) -/
 theorem min_delta_child (val : Nat → Int) (d : Int) (parent t : Tree) (v : Int) (b : Bool) :
     Gen.min_delta d (t.vmax val) (t.vmin val) (t.height val) true (parent.height val) false v b
       = Crit.child val (.minDelta d) parent t := by
-  simp only [Gen.min_delta, Crit.child, py_id]
+  simp only [Gen.min_delta, Crit.child, py_id, diff_id]
   gen_arith
 
 theorem min_npix_eq (val : Nat → Int) (n : Nat) (parent t : Tree) (v : Int) :
